@@ -310,3 +310,37 @@ def pinned_cases(ctx):
             with open(os.path.join(kdir, name)) as f:
                 out.append((name, json.load(f)["case"]))
     return out
+
+
+def _corner_cases(ctx):
+    """Deterministic corner sweep on every run: derivatives of the standard deviations / the terminal loss for *exact* (zero-covariance)
+    initial states - where a square root or a norm sits at zero - in every factorisation, for parameters that move the covariances
+    (finding F13 lived here; the random structure pool of one run reaches this corner only now and then)."""
+    import itertools
+
+    rng = np.random.default_rng(common.derive_seed(ctx.seed, "c16-corners"))
+    out = []
+    combos = list(itertools.product(gen.FACTS, ["stds", "lml_terminal"], ["theta", "scale", "u0"], ["mle", "none"], ["filter", "fixedinterval"]))
+    for i, (fact, obj, param, calib, strat) in enumerate(combos):
+        if i % ctx.nshards != ctx.shard:
+            continue
+        if calib == "none" and param != "scale":
+            continue  # uncalibrated covariances do not depend on the vector field or the initial value with TS0; keep the sweep small
+        n, d, steps = 3, 2, 3
+        lin = "ts0" if (i // 2) % 2 == 0 else "ts1"
+        cfg = dict(fact=fact, calib=calib, strategy=strat, lin=lin, n=n, d=d, order=1, degree=2, num_steps=steps, init="exact", jac="materialize",
+                   cinit=False, obj=obj, param=param, equal_noise=False)
+        M = sk.make_field(cfg).M
+        q = lambda *shape: (np.round(rng.uniform(-2, 2, size=shape) * 4) / 4).tolist()  # noqa: E731
+        N = steps + 1
+        case = dict(cfg=cfg, C=q(d, M), tc=q(n, d), tc_mode="consistent", incs=[0.125, 0.25, 0.125], t0=0.25, damp=0.0, base=[1.0] * (1 if fact == "isotropic" else d),
+                    w=q(N * n * d), dirC=q(d, M), dirU=[1.0, -0.5], log_noise=[-1.0] * (N * d), z=q(N * d))
+        out.append(("corner", case))
+    return out
+
+
+_pinned_known = pinned_cases
+
+
+def pinned_cases(ctx):  # noqa: F811
+    return _pinned_known(ctx) + _corner_cases(ctx)
